@@ -56,8 +56,13 @@ func run() {
 	var inst *lmd.VerifInstance
 	dec := json.NewDecoder(in)
 	for {
+		var rawLine json.RawMessage
 		var line opLine
-		if err := dec.Decode(&line); err != nil {
+		err := dec.Decode(&rawLine)
+		if err == nil {
+			err = json.Unmarshal(rawLine, &line)
+		}
+		if err != nil {
 			// a worker goroutine of lmd that panicked ends the process with os.Exit only after it has
 			// released the request's wait group and written its report: give it the time to do so
 			time.Sleep(200 * time.Millisecond)
@@ -93,6 +98,9 @@ func run() {
 			res := inst.VerifQuery(line.Text, line.Optimize)
 			emit(out, map[string]interface{}{"id": line.ID, "op": "query", "code": res.Code, "body": res.Body, "raw": res.Raw, "err": res.Err, "reprint": res.Reprint})
 		default:
+			if worldOp(out, &inst, line.Op, rawLine, scratch) {
+				continue
+			}
 			if !extraOp(out, &inst, line.Op, line) {
 				emit(out, map[string]interface{}{"id": line.ID, "error": "unknown op " + line.Op})
 			}
